@@ -54,37 +54,58 @@ Definition kf_resign_unknown (d : dtx) (plain_msg signed_msg : list N) (impl : N
   has_tx_unknown d && N.eqb impl 0 && bytes_eqb signed_msg (plain_msg ++ d_unk d).
 
 (** * Signature.ty and From() *)
-(** types.ExtractAddressID: (signID & 0x7000) >> 12 *)
-Definition addr_id (ty : Z) : Z := Z.shiftr (Z.land ty 0x7000) 12.
+(** The address drivers of the process as the harness found them: [aids] = the
+    ids whose driver derives an address from a regular public key (in /repo
+    0 = btc, 1 = btcMultiSign, 2 = eth; 3 = utxo is registered but panics,
+    4..7 have no driver - both give no sender).  The eth driver (id 2) slices
+    pubKey[1:] and panics on an empty key.  The derived string is the
+    driver's; [a] stands for it. *)
+Definition eth_aid : Z := 2.
+Definition adrv_of (aids : list Z) (a : list N) (id : Z) (pub : list N) : aout :=
+  if existsb (Z.eqb id) aids then
+    if Z.eqb id eth_aid && match pub with [] => true | _ :: _ => false end then APanic else AAddr a
+  else ANone.
 
-(** From() panics when no address driver has that id *)
-Definition from_panics (aids : list Z) (ty : Z) : bool := negb (existsb (Z.eqb (addr_id ty)) aids).
+(** a sender address can be derived for this signature type and key *)
+Definition sender_usable (aids : list Z) (ty : Z) (pub : list N) : bool :=
+  match adrv_of aids [] (addr_id ty) pub with AAddr _ => true | _ => false end.
 
-(** [t0] honestly signed with type [ty0]; presented with [ty'] (everything
-    else unchanged): [chk] = CheckSign(h), [f1] = From() of the presented
-    transaction ([None] = panic).
+(** [t0] honestly signed with type [ty0] and key [pub]; presented with [ty']
+    (everything else unchanged): [chk] = CheckSign(h), [f0] / [f1] = From() of
+    [t0] / of the presented transaction ([None] = panic).
     - ty' <> ty0 naming the same driver: nothing the signer produced covers
       the difference, yet ty decides the sender address format: must fail
       (title of the property: the signature binds every field it is not part of);
-    - an accepted transaction has a sender: From() must not panic. *)
-Definition spec_from_bound (ds : list drv) (aids : list Z) (h : Z) (ty0 ty' : Z) (chk : N) : bool :=
+    - From() never panics, whatever the verdict (it is asked before the
+      signature is checked), and an accepted transaction has a sender: a
+      driver derives an address for its type and key. *)
+Definition spec_from_bound (ds : list drv) (aids : list Z) (h : Z) (ty0 ty' : Z) (pub : list N) (chk : N) : bool :=
   negb (N.eqb chk 2) &&
   if (h <? 0)%Z then true
   else if Z.eqb ty0 ty' then
     (* an address format without a usable driver is not a registered format:
        no claim here, [spec_from_total] demands that it is not accepted *)
-    if from_panics aids ty0 then true else Bool.eqb (N.eqb chk 1) (enabled ds (crypto_id ty0) h)
+    if sender_usable aids ty0 pub then Bool.eqb (N.eqb chk 1) (enabled ds (crypto_id ty0) h) else true
   else if Z.eqb (crypto_id ty0) (crypto_id ty') then N.eqb chk 0
   else if enabled ds (crypto_id ty') h then true else N.eqb chk 0.
-Definition spec_from_total (chk : N) (f1 : option (list N)) : bool :=
-  if N.eqb chk 1 then match f1 with Some _ => true | None => false end else true.
+Definition is_some {A : Type} (o : option A) : bool := match o with Some _ => true | None => false end.
+Definition spec_from_total (aids : list Z) (ty' : Z) (pub : list N) (chk : N) (f1 : option (list N)) : bool :=
+  is_some f1 && (if N.eqb chk 1 then sender_usable aids ty' pub else true).
+
+(** what From() returned against the model: never a panic; the empty string
+    exactly when no sender can be derived *)
+Definition from_agrees (aids : list Z) (ty : Z) (pub : list N) (f : option (list N)) : bool :=
+  match f with
+  | None => false
+  | Some a => Bool.eqb (match a with [] => true | _ :: _ => false end) (negb (sender_usable aids ty pub))
+  end.
 
 (** 10: only ty differs, same crypto id, accepted *)
 Definition kf_ty_unbound (ty0 ty' : Z) (chk : N) : bool :=
   negb (Z.eqb ty0 ty') && Z.eqb (crypto_id ty0) (crypto_id ty') && N.eqb chk 1.
-(** 11: accepted, address id without a driver, From() panics *)
-Definition kf_from_panic (aids : list Z) (ty' : Z) (chk : N) (f1 : option (list N)) : bool :=
-  N.eqb chk 1 && from_panics aids ty' && match f1 with None => true | Some _ => false end.
+(** 11 (fixed in 909acb0: From() panicked for an address id without a usable
+    driver and CheckSign accepted such a type) has no signature any more: a
+    panic of From() or an accepted transaction without a sender is a violation. *)
 
 (** * secp256k1eth note mode *)
 Definition action_eqb (a b : action) : bool :=
